@@ -1,7 +1,7 @@
 (* C06 - Symbolic arithmetic on models is pointwise arithmetic on energies.
    Only statements; every proof is `exact <lemma>`. *)
 From Coq Require Import List ZArith QArith Qcanon Bool Arith.
-From Dimod Require Import Base.Util Model.Poly Model.Sym Model.SymStore Proofs.PolyFacts Proofs.SymFacts Proofs.SymStoreFacts Model.OpsLang Gen.Gen_Ops Gen.Gen_AddVar Model.Ops Proofs.OpsFacts Proofs.AddVarFacts Proofs.OpsUnaryFacts Proofs.OpsDivFacts Proofs.OpsMulFacts.
+From Dimod Require Import Base.Util Model.Poly Model.Sym Model.SymStore Proofs.PolyFacts Proofs.SymFacts Proofs.SymStoreFacts Model.OpsLang Gen.Gen_Ops Gen.Gen_AddVar Model.Ops Proofs.OpsFacts Proofs.AddVarFacts Proofs.OpsUnaryFacts Proofs.OpsDivFacts Proofs.OpsMulFacts Proofs.OpsPromoFacts Proofs.OpsFrameFacts Proofs.OpsFromBqmFacts.
 Import ListNotations.
 Open Scope Qc_scope.
 
@@ -238,8 +238,8 @@ Proof. exact g_idiv_correct. Qed.
 Print Assumptions C06_gen_idiv_correct.
 
 (* the translated * for every pair of operand kinds that does not go through BinaryQuadraticModel.__mul__ /
-   __rmul__ / from_bqm (numbers, views, QMs; two models must both be QMs).  PARTIAL: products of models of
-   different classes or vartypes (promotion through from_bqm / __rmul__) are tied by the correspondence only *)
+   __rmul__ / from_bqm (numbers, views, QMs; two models must both be QMs).  Superseded by C06_gen_mul_correct below,
+   which also covers products of models of different classes or vartypes (promotion through from_bqm / __rmul__) *)
 Theorem C06_gen_mul_correct_partial : forall a b, no_bqm_product a b -> requiv (g_op OMul a b) (v_mul a b).
 Proof. exact g_mul_correct_partial. Qed.
 Print Assumptions C06_gen_mul_correct_partial.
@@ -265,11 +265,131 @@ Theorem C06_gen_imul_qm_qm_correct :
 Proof. exact g_imul_qm_qm_correct. Qed.
 Print Assumptions C06_gen_imul_qm_qm_correct.
 
-(* the translated ** of a QM: only the power 2, only of a linear model, then the product with itself.
-   PARTIAL: ** of a BQM is tied by the correspondence only *)
+(* the translated ** of a QM: only the power 2, only of a linear model, then the product with itself
+   - the power of a BQM is C06_gen_pow_bqm_correct below *)
 Theorem C06_gen_pow_qm_correct : forall t p n, g_pow (VMdl (mkM CQm t p)) n = v_pow (VMdl (mkM CQm t p)) n.
 Proof. exact g_pow_qm_correct. Qed.
 Print Assumptions C06_gen_pow_qm_correct.
+
+(* ---- the remaining dispatch paths of * and **: promotion through QuadraticModel.from_bqm / __rmul__ ---- *)
+(* ** of a BQM: BinaryQuadraticModel.__pow__ -> self * self -> the double loop of BinaryQuadraticModel.__mul__ *)
+Theorem C06_gen_pow_bqm_correct :
+  forall v t p n, bqm_terms_ok v t p -> g_pow (VMdl (mkM (CBqm v) t p)) n = v_pow (VMdl (mkM (CBqm v) t p)) n.
+Proof. exact g_pow_bqm_correct. Qed.
+Print Assumptions C06_gen_pow_bqm_correct.
+
+(* BQM x QM: BinaryQuadraticModel.__mul__ -> qm = from_bqm(self); qm *= other -> QuadraticModel.__imul__ declines ->
+   QuadraticModel.__mul__ *)
+Theorem C06_gen_mul_bqm_qm_correct :
+  forall v tx px ty py,
+    g_op OMul (VMdl (mkM (CBqm v) tx px)) (VMdl (mkM CQm ty py)) = v_mul (VMdl (mkM (CBqm v) tx px)) (VMdl (mkM CQm ty py)).
+Proof. exact g_mul_bqm_qm_correct. Qed.
+Print Assumptions C06_gen_mul_bqm_qm_correct.
+
+(* QM x BQM: QuadraticModel.__mul__ declines -> BinaryQuadraticModel.__rmul__ -> from_bqm(self) *= other, i.e. the
+   product runs with the BQM as left operand (its variables are registered first) *)
+Theorem C06_gen_mul_qm_bqm_correct :
+  forall v tx px ty py,
+    g_op OMul (VMdl (mkM CQm tx px)) (VMdl (mkM (CBqm v) ty py)) = v_mul (VMdl (mkM CQm tx px)) (VMdl (mkM (CBqm v) ty py)).
+Proof. exact g_mul_qm_bqm_correct. Qed.
+Print Assumptions C06_gen_mul_qm_bqm_correct.
+
+(* BQM x BQM of any two vartypes: a right operand with variables of another vartype promotes
+   (from_bqm(self) * other -> QuadraticModel.__mul__ declines -> other.__rmul__ -> from_bqm(other) *= from_bqm(self));
+   otherwise (same vartype, or a right operand without variables) the double loop of BinaryQuadraticModel.__mul__ *)
+Theorem C06_gen_mul_bqm_bqm_any_correct :
+  forall v v' tx px ty py, bqm_terms_ok v tx px ->
+    g_op OMul (VMdl (mkM (CBqm v) tx px)) (VMdl (mkM (CBqm v') ty py)) =
+    v_mul (VMdl (mkM (CBqm v) tx px)) (VMdl (mkM (CBqm v') ty py)).
+Proof. exact g_mul_bqm_bqm_any_correct. Qed.
+Print Assumptions C06_gen_mul_bqm_bqm_any_correct.
+
+(* so the translated * and *= are the specified product for EVERY pair of operand kinds (number, BQM of either
+   vartype, QM, view) - for a left BQM whose linear terms range over its own variables (every real BQM) *)
+Theorem C06_gen_mul_correct : forall a b, bqm_wf a -> requiv (g_op OMul a b) (v_mul a b).
+Proof. exact g_mul_correct. Qed.
+Print Assumptions C06_gen_mul_correct.
+
+Theorem C06_gen_imul_correct : forall a b, bqm_wf a -> requiv (g_iop OMul a b) (v_mul a b).
+Proof. exact g_imul_correct. Qed.
+Print Assumptions C06_gen_imul_correct.
+
+(* whatever they return has the product of the operands' energies on every sample valid for the domains of the
+   result's variables, and every operand variable is in the result with its vartype *)
+Theorem C06_gen_mul_spec :
+  forall a b v, bqm_wf a -> (g_op OMul a b = Ok v \/ g_iop OMul a b = Ok v) -> op_spec a b v Qcmult.
+Proof. exact g_mul_spec. Qed.
+Print Assumptions C06_gen_mul_spec.
+
+(* the translated ** for every operand kind, and its energy *)
+Theorem C06_gen_pow_correct : forall a n, bqm_wf a -> g_pow a n = v_pow a n.
+Proof. exact g_pow_correct. Qed.
+Print Assumptions C06_gen_pow_correct.
+
+Theorem C06_gen_pow_spec :
+  forall a n v, bqm_wf a -> g_pow a n = Ok v ->
+    sub_vt (val_tab a) (val_tab v) /\
+    forall s, respects (tvt (val_tab v)) s -> val_energy v s = qpow (val_energy a s) n.
+Proof. exact g_pow_spec. Qed.
+Print Assumptions C06_gen_pow_spec.
+
+Theorem C06_gen_pow_model_square :
+  forall m n v, bqm_wf (VMdl m) -> g_pow (VMdl m) n = Ok v ->
+    n = 2%nat /\ is_linear m = true /\
+    forall s, respects (tvt (val_tab v)) s -> val_energy v s = energy (m_poly m) s * energy (m_poly m) s.
+Proof. exact g_pow_model_square. Qed.
+Print Assumptions C06_gen_pow_model_square.
+
+(* ---- the promotion primitive: QuadraticModel.from_bqm -> cyqm from_cybqm, as read from the source ---- *)
+(* for a BQM whose table is that of a BQM (every variable of the model's vartype, with that vartype's domain) the
+   translated constructor builds exactly what the interpreter uses for from_bqm: same variables, vartypes, bounds,
+   offset, linear and quadratic biases, class QM *)
+Theorem C06_gen_from_bqm_correct :
+  forall m v, m_cls m = CBqm v -> bqm_tab_ok v (m_tab m) -> from_bqm_gen m = to_qm m.
+Proof. exact from_bqm_gen_correct. Qed.
+Print Assumptions C06_gen_from_bqm_correct.
+
+Theorem C06_gen_from_bqm_energy :
+  forall m v s, m_cls m = CBqm v -> bqm_tab_ok v (m_tab m) ->
+    energy (m_poly (from_bqm_gen m)) s = energy (m_poly m) s /\ m_tab (from_bqm_gen m) = m_tab m /\
+    m_cls (from_bqm_gen m) = CQm.
+Proof. exact from_bqm_gen_energy. Qed.
+Print Assumptions C06_gen_from_bqm_energy.
+
+Theorem C06_bqm_tab_ok_satisfiable :
+  forall l, bqm_tab_ok BINARY (m_tab (var_mdl KBin l 0 1)).
+Proof. exact var_mdl_tab_ok_bin. Qed.
+Print Assumptions C06_bqm_tab_ok_satisfiable.
+
+(* ---- operands unchanged ---- *)
+(* no translated pure operator method (every class: + - * / with their reflected forms, unary - and +, power) contains a statement
+   whose target is `self` or `other` (assignment, augmented assignment, .offset +=, .update(), .scale()), nor binds
+   a local name to a bare operand *)
+Theorem C06_gen_pure_methods_never_target_operands :
+  forall k m, pure_method m = true -> body_clean k m = true.
+Proof. exact pure_methods_clean. Qed.
+Print Assumptions C06_gen_pure_methods_never_target_operands.
+
+(* no method at all - the in-place ones included - has its right operand as a target *)
+Theorem C06_gen_methods_never_target_other : forall k m, body_spares_other k m = true.
+Proof. exact methods_spare_other. Qed.
+Print Assumptions C06_gen_methods_never_target_other.
+
+(* running a statement free of such targets leaves both operand slots as they were, whatever the nested
+   operator applications do *)
+Theorem C06_exec_stmt_frame :
+  forall d s en en', touches s = false -> exec_stmt d s en = Cont en' ->
+    en_self en' = en_self en /\ en_other en' = en_other en.
+Proof. exact exec_stmt_frame. Qed.
+Print Assumptions C06_exec_stmt_frame.
+
+(* so at whatever point the body of a pure method has got to, `self` and `other` are what it was called with *)
+Theorem C06_gen_pure_method_operands_unchanged :
+  forall d k m body pre post self other n en',
+    pure_method m = true -> gen_method k m = Some body -> body = pre ++ post ->
+    exec_list d pre (mkEnv self other n []) = Cont en' -> en_self en' = self /\ en_other en' = other.
+Proof. exact pure_method_operands_unchanged. Qed.
+Print Assumptions C06_gen_pure_method_operands_unchanged.
 
 (* ---- add_variable on an existing label (the merge step of QM.__mul__), as read from
    cyqm_template.pyx.pxi by translators/qm_addvar.py (Gen/Gen_AddVar.v) ---- *)
@@ -376,4 +496,41 @@ Example C06_addvar_zero_bound :
   /\ gen_addvar_existing (mkVI INTEGER (qc (-4) 1) (qc 4 1)) INTEGER None (Some (qc 4 1)) = None
   /\ gen_addvar_existing (mkVI INTEGER 0 (qc 4 1)) INTEGER (Some (qc (-1) 1)) None = Some EValueError
   /\ gen_addvar_existing (mkVI INTEGER 0 (qc 4 1)) REAL None None = Some ETypeError.
+Proof. vm_compute. repeat split; reflexivity. Qed.
+
+(* ---- the promoting paths on concrete operands, through the translated dispatch ---- *)
+Theorem C06_bqm_wf_satisfiable : forall k l lb ub, bqm_wf (VMdl (var_mdl k l lb ub)).
+Proof. exact var_mdl_bqm_wf. Qed.
+Print Assumptions C06_bqm_wf_satisfiable.
+
+Definition coeffs_gen_are (e : sx) (c : cls) (off : Qc) (lins quads : list Qc) : bool :=
+  match eval_gen e with
+  | Ok (VMdl m) => cls_eqb (m_cls m) c && Qc_eqb (p_off (m_poly m)) off &&
+                   list_eqb Qc_eqb (map (lin_coeff (p_lin (m_poly m))) [0;1;2;3]%nat) lins &&
+                   list_eqb Qc_eqb (map (fun uv => quad_coeff (p_quad (m_poly m)) (fst uv) (snd uv))
+                                        [(0,0);(1,1);(2,2);(0,1);(0,2);(2,3)]%nat) quads
+  | _ => false
+  end.
+Definition yb := Var KBin 1%nat 0 1.
+(* (x + y) ** 2 of a BINARY BQM stays a BQM: x + y + 2xy *)
+Example C06_gen_bqm_square : coeffs_gen_are (Pow (Add xb yb) 2) (CBqm BINARY) 0 [1;1;0;0] [0;0;0;two;0;0] = true.
+Proof. vm_compute. reflexivity. Qed.
+(* (s + 1) ** 2 of a SPIN BQM: 2 + 2s *)
+Example C06_gen_spin_square : coeffs_gen_are (Pow (Add ss (Num 1)) 2) (CBqm SPIN) two [0;two;0;0] [0;0;0;0;0;0] = true.
+Proof. vm_compute. reflexivity. Qed.
+(* BINARY BQM x SPIN BQM promotes: (x + 1) * s = xs + s, and the other way round *)
+Example C06_gen_mixed_bqm_product :
+  coeffs_gen_are (Mul (Add xb (Num 1)) ss) CQm 0 [0;1;0;0] [0;0;0;1;0;0] = true /\
+  coeffs_gen_are (Mul ss (Add xb (Num 1))) CQm 0 [0;1;0;0] [0;0;0;1;0;0] = true.
+Proof. vm_compute. split; reflexivity. Qed.
+(* BQM x QM and QM x BQM, also in place: x * (i + 2) = xi + 2x *)
+Example C06_gen_bqm_qm_product :
+  coeffs_gen_are (Mul xb (Add ii (Num two))) CQm 0 [two;0;0;0] [0;0;0;0;1;0] = true /\
+  coeffs_gen_are (Mul (Add ii (Num two)) xb) CQm 0 [two;0;0;0] [0;0;0;0;1;0] = true.
+Proof. vm_compute. split; reflexivity. Qed.
+(* a label that is BINARY on one side and SPIN on the other is a TypeError on every promoting path *)
+Example C06_gen_clash_promoting :
+  eval_gen (Mul xb (Var KSpin 0%nat (- (1)) 1)) = Err ETypeError /\
+  eval_gen (Mul xb (Add (Var KInt 0%nat 0 1) ii)) = Err ETypeError /\
+  eval_gen (Mul (Add (Var KInt 0%nat 0 1) ii) xb) = Err ETypeError.
 Proof. vm_compute. repeat split; reflexivity. Qed.
